@@ -440,6 +440,11 @@ pub(crate) const fn is_unicast_global_ipv6(ip: &Ipv6Addr) -> bool {
 #[must_use]
 #[inline]
 pub(crate) const fn is_global_ipv6(ip: &Ipv6Addr) -> bool {
+    // The scope nibble below exists only in multicast addresses (`ff00::/8`) [RFC 4291 section 2.7]
+    if !ip.is_multicast() {
+        return is_unicast_global_ipv6(ip);
+    }
+
     match ip.segments()[0] & 0x000f {
         1 // Interface-local scope (same node)
         | 2 // Link-local scope (same link)
